@@ -25,11 +25,46 @@ var (
 	afPool   = []string{"stampC", "markS", "clearC"}
 	icptPool = []string{"", "", "", "lower", "lower", "dash", "first", "dup"}
 	tickPool = []int{1, 1, 1, 0, 2}
+	// the second message type (OpenClosePosition): masks over open_percent (p), open_percent_tween (t) and
+	// open_percent_tween.progress (tp) - sibling names of which one is a textual prefix of the other
+	posMaskPool = []string{"0", "p", "t", "tp", "p,t", "t,p", "p,tp", "tp,p", "t,tp", "p,t,tp", "tp,t,p", "x", "p,x", "t,x", "p,p", "tp,tp", "t,p,t"}
+	posWPool    = []string{"0", "p", "t", "tp", "p,t", "t,p", "p,tp", "tp,p", "p,t,tp"}
+	pPool       = []int{0, 0, 1, 7, 50}
+	tPool       = []string{"-", "-", "0", "3", "25"}
 )
+
+// genPos: the script being generated works on the second message type (set by genScript for the whole
+// script: a resource holds messages of one type)
+var genPos bool
+
+func masks() []string {
+	if genPos {
+		return posMaskPool
+	}
+	return maskPool
+}
+
+func wMasks() []string {
+	if genPos {
+		return posWPool
+	}
+	return wPool
+}
+
+// msgText: the text under which a message of the oracle is handed to the code and the model
+func msgText(m rmsg) string {
+	if genPos {
+		return m.posString()
+	}
+	return m.String()
+}
 
 func pick[X any](r *rand.Rand, xs []X) X { return xs[r.Intn(len(xs))] }
 
 func genMsg(r *rand.Rand) string {
+	if genPos {
+		return fmt.Sprintf("0//-/-/-/%d/%s", pick(r, pPool), pick(r, tPool))
+	}
 	base := fmt.Sprintf("%d/%s/%s", pick(r, aPool), pick(r, sPool), pick(r, cPool))
 	if r.Intn(3) > 0 {
 		return base
@@ -59,7 +94,7 @@ func genCfg(r *rand.Rand) Cfg {
 		c.Kind = "val"
 	}
 	if r.Intn(5) < 2 {
-		w := pick(r, wPool)
+		w := pick(r, wMasks())
 		c.W = &w
 	}
 	if c.Kind == "val" {
@@ -94,27 +129,28 @@ func genWriteOpts(r *rand.Rand, op string, cur *rmsg) []string {
 	}
 	if op != "del" {
 		if p(35) {
-			o = append(o, "um="+pick(r, maskPool))
+			o = append(o, "um="+pick(r, masks()))
 		}
 		if p(15) {
-			o = append(o, "rs="+pick(r, maskPool))
+			o = append(o, "rs="+pick(r, masks()))
 		}
-		if p(15) {
+		// the named interceptors are written for the first message type
+		if p(15) && !genPos {
 			o = append(o, "bf="+pick(r, bfPool))
 		}
-		if p(15) {
+		if p(15) && !genPos {
 			o = append(o, "af="+pick(r, afPool))
 		}
 		if p(10) {
 			o = append(o, "nw")
 		}
 		if p(15) {
-			o = append(o, "mw="+pick(r, wPool))
+			o = append(o, "mw="+pick(r, wMasks()))
 		}
 	}
 	if p(18) {
 		if cur != nil && p(65) {
-			o = append(o, "ev="+cur.String())
+			o = append(o, "ev="+msgText(*cur))
 		} else {
 			o = append(o, "ev="+genMsg(r))
 		}
@@ -166,7 +202,7 @@ func genWriteOpts(r *rand.Rand, op string, cur *rmsg) []string {
 func genReadOpts(r *rand.Rand, list bool) []string {
 	var o []string
 	if r.Intn(100) < 35 {
-		o = append(o, "rm="+pick(r, maskPool))
+		o = append(o, "rm="+pick(r, masks()))
 	}
 	if list && r.Intn(100) < 40 {
 		o = append(o, "inc="+pick(r, incPool))
